@@ -14,7 +14,7 @@ for sid in ids:
     try:
         r = subprocess.run([ROOT + "/check", pid], stdout=subprocess.PIPE, stderr=subprocess.STDOUT, text=True)
     finally:
-        subprocess.run(f"git -C {REPO} checkout -- .", shell=True)
+        subprocess.run(f"git -C {REPO} apply -R {ROOT}/seeded/{sid}/patch.diff 2>/dev/null; git -C {REPO} checkout -- .", shell=True)  # (-R also removes files the patch added)
     out = r.stdout
     if r.returncode == 1:
         obs = re.findall(r"^\s+obligation (\S+?)#(\S+?)@", out, re.M)
